@@ -1,5 +1,5 @@
 """C14 — invalid input is rejected: guard / atomicity clauses (DESIGN.md section 3 / C14)."""
-from lib import labelvalid, a64common, core
+from lib import labelvalid, a64common, core, precede, emitatomic, cfg
 
 
 def run(chk):
@@ -9,6 +9,25 @@ def run(chk):
     # C14.b (shared with C02.a)
     A = a64common.load(chk)
     a64common.rule_vbe(chk, A, "C14.b")
+    # C14.c R-EMIT-ATOMIC on the two assemblers
+    RA = "R-EMIT-ATOMIC"
+    chk.rule(RA, "emit functions: success exits reset state and commit bytes, failing exits clear state first, nothing fails after "
+                 "writer.done(), and no input-validation exit is reachable after a fixup/relocation/address-table commit")
+    st = emitatomic.analyse(chk, A["emit"], a64common.UNIT, RA, rules["emit_atomic_exceptions"])
+    chk.floor(RA + ":a64-returns", st["returns"], 3)
+    chk.floor(RA + ":a64-commits", st["commit_calls"], 2)
+    fx = chk.facts("asmjit/x86/x86assembler.cpp", funcs=r"x86::Assembler::_emit$")
+    xemit = cfg.find_fn(fx, "x86::Assembler::_emit")
+    st = emitatomic.analyse(chk, xemit, "asmjit/x86/x86assembler.cpp", RA, rules["emit_atomic_exceptions"])
+    chk.floor(RA + ":x86-returns", st["returns"], 3)
+    chk.floor(RA + ":x86-commits", st["commit_calls"], 6)
+    chk.floor(RA + ":x86-error-labels", st["error_labels"], 20)
+    fb = chk.facts("asmjit/core/builder.cpp", funcs=r"asmjit::BaseBuilder::_emit$")
+    bemit = cfg.find_fn(fb, "BaseBuilder::_emit")
+    st = emitatomic.analyse(chk, bemit, "asmjit/core/builder.cpp", RA, rules["emit_atomic_exceptions"], require_done=False)
+    chk.floor(RA + ":builder-returns", st["returns"], 4)
+    # C14.c (part): the shared failure exit resets state before the handler can throw
+    precede.run(chk, rules["must_precede"])
     return chk.finish(
         level="other",
         explanation=("Guard and atomicity rules over the emit paths of /repo's current source: label ids are validated on the "
